@@ -26,6 +26,7 @@ type Stream struct {
 	UseNumber             bool
 	DisallowUnknownFields bool
 	Option                *Option
+	readErr               error
 }
 
 func NewStream(r io.Reader) *Stream {
@@ -214,7 +215,7 @@ func (s *Stream) readBuf() []byte {
 }
 
 func (s *Stream) read() bool {
-	if s.allRead {
+	if s.allRead || s.readErr != nil {
 		return false
 	}
 	buf := s.readBuf()
@@ -230,9 +231,16 @@ func (s *Stream) read() bool {
 	if err == io.EOF {
 		s.allRead = true
 	} else if err != nil {
+		s.readErr = err
 		return false
 	}
 	return true
+}
+
+// ReadError returns the first error other than io.EOF that the underlying reader reported.
+// The scanners treat a failed read like the end of the input; the Decoder reports this error instead.
+func (s *Stream) ReadError() error {
+	return s.readErr
 }
 
 func (s *Stream) skipWhiteSpace() byte {
